@@ -362,7 +362,7 @@ func c07AbandonRun(c c07AbandonCase) Verdict {
 	}
 	cfg := harness.Config{LMTP: lmtp}
 	if c.Action == "TIMEOUT" || c.Action == "DATA-TIMEOUT" {
-		cfg.ReadTimeoutMs = 30
+		cfg.ReadTimeoutMs = 100
 	}
 	if c.Action == "OVERLIMIT" {
 		cfg.MaxMessageBytes = int64(len(c.Conv.Msgs[0].Body)) + 2
@@ -604,7 +604,7 @@ func TestC07(t *testing.T) {
 		}
 	}
 	c07Abandon.rapidCheck(t, pickTier(400, 8000), func(rt *rapid.T) c07AbandonCase {
-		action := rapid.SampledFrom([]string{"RSET", "QUIT", "EHLO", "EOF", "EOF", "RSET", "TIMEOUT", "DATA-TIMEOUT", "OVERLIMIT", "OVERLIMIT"}).Draw(rt, "action")
+		action := rapid.SampledFrom([]string{"RSET", "QUIT", "EHLO", "EOF", "EOF", "RSET", "OVERLIMIT", "OVERLIMIT", "RSET", "QUIT", "EHLO", "EOF", "EOF", "RSET", "OVERLIMIT", "OVERLIMIT", "EHLO", "QUIT", "TIMEOUT", "DATA-TIMEOUT"}).Draw(rt, "action")
 		spec := convSpec{Mode: rapid.IntRange(0, 2).Draw(rt, "mode"), NRcpt: rapid.IntRange(1, 3).Draw(rt, "nrcpt")}
 		m := genConvMsg(rt, "m0", 5)
 		if action == "DATA-TIMEOUT" {
